@@ -13,14 +13,14 @@ PROP = {'drive': ['Dsl'],
                        'C19_no_leak_general',
                        'C19_leak_before_repair',
                        'C19_roundtrip_gsub1_partial',
-                       'C19_roundtrip_gsub2_partial',
-                       'C19_roundtrip_gsub3_partial',
+                       'C19_roundtrip_gsub2',
+                       'C19_roundtrip_gsub3',
                        'C19_roundtrip_gsub4_partial',
                        'C19_roundtrip_subtables_partial',
                        'C19_roundtrip_gpos1_partial',
                        'C19_roundtrip_gpos2_partial',
                        'C19_roundtrip_lists_partial',
-                       'C19_glyphlist_roundtrip_partial',
+                       'C19_glyphlist_roundtrip',
                        'C19_total_partial'],
  'areas': [('dsl', 6000, 60000)],
  'rule': 'distinct case lines (font = glyph count, names, cmap; text or lookup list; GOMAXPROCS); non-trivial = '
